@@ -510,6 +510,45 @@ func (s *Session) Close() {
 	tmux("kill-session", "-t", s.Name)
 }
 
+// GoroutineDump asks a hung fzf for its goroutine stacks (SIGQUIT makes the Go
+// runtime print them to stderr) and returns the interesting part.
+func (s *Session) GoroutineDump() string {
+	if !s.Alive() {
+		return "(process is gone)"
+	}
+	syscall.Kill(s.Pid, syscall.SIGQUIT)
+	time.Sleep(500 * time.Millisecond)
+	out := string(s.Stderr())
+	if i := strings.Index(out, "SIGQUIT"); i >= 0 {
+		out = out[i:]
+	}
+	// keep the goroutine headers and the frames inside fzf
+	var keep []string
+	lines := strings.Split(out, "\n")
+	for i, l := range lines {
+		if strings.HasPrefix(l, "goroutine ") {
+			keep = append(keep, l)
+		} else if strings.Contains(l, "github.com/junegunn/fzf/") && !strings.HasPrefix(l, "\t") {
+			loc := ""
+			if i+1 < len(lines) {
+				loc = strings.TrimSpace(lines[i+1])
+				if j := strings.Index(loc, " +0x"); j >= 0 {
+					loc = loc[:j]
+				}
+			}
+			if j := strings.Index(l, "("); j >= 0 {
+				l = l[:j]
+			}
+			keep = append(keep, "    "+l+"  "+loc)
+		}
+	}
+	out = strings.Join(keep, "\n")
+	if len(out) > 20000 {
+		out = out[:20000] + "\n...(truncated)"
+	}
+	return out
+}
+
 // panicText looks for a Go panic trace on the screen or in stderr.
 func (s *Session) panicText() string {
 	for _, src := range []string{string(s.Stderr()), strings.Join(s.Capture(), "\n")} {
